@@ -100,6 +100,8 @@ type Rec struct {
 	failed  bool
 	current []byte
 	curMsg  string
+	firstMsg  string // the first failure seen (kept in case it does not reproduce)
+	firstCase []byte
 	start   time.Time
 	frozen  bool
 }
@@ -231,6 +233,12 @@ func (r *Rec) Finish(t *testing.T) {
 	r.st.Distinct = len(r.hashes)
 	if t.Failed() || r.failed {
 		r.st.Violations = 1
+		if r.curMsg == "" && r.firstMsg != "" {
+			// the failure did not reproduce when rapid re-ran the case:
+			// report the case and message of the first failure
+			r.current = r.firstCase
+			r.curMsg = "(did not reproduce on re-run) " + r.firstMsg
+		}
 		path := r.writeReplay()
 		fmt.Printf("VIOLATION property=%s replay=%s\n", r.o.Property, path)
 		if r.curMsg != "" {
@@ -469,6 +477,10 @@ func (r *Rec) setCurrent(raw []byte, msg string) {
 func (r *Rec) fail(msg string) {
 	r.mu.Lock()
 	defer r.mu.Unlock()
+	if !r.failed {
+		r.firstMsg = msg
+		r.firstCase = append([]byte{}, r.current...)
+	}
 	r.failed = true
 	r.frozen = true // what follows is shrinking, not exploration
 	r.curMsg = msg
